@@ -81,12 +81,18 @@ class PageFeatureProcessor:
 
         # 1. First Page Logic
         # A header list may contain None placeholders ("no header for this
-        # section") and nested lists: only real headers count.
+        # section") and nested lists, and a header without text is rendered
+        # only when the body asks for automatic column names: only headers
+        # that produce a row count.
+        auto_header = getattr(document.rtf_body, "as_colheader", True)
+
         def _has_header(headers) -> bool:
             if not headers:
                 return False
             return any(
-                _has_header(h) if isinstance(h, (list, tuple)) else h is not None
+                _has_header(h)
+                if isinstance(h, (list, tuple))
+                else h is not None and (h.text is not None or auto_header)
                 for h in headers
             )
 
